@@ -21,6 +21,14 @@
     * `Close` of a closed listener fails and changes nothing.
   Core Lean only.
 
+  GRANULARITY since fix a1069ea (one critical section around Bind's check + parse + listen + store, around
+  Listen's bind + running=true, and around DoListen's listener read + running=true): the pcs `bindCheck`, `parse`,
+  `listenSys`, `store`, `setRunning` / `readLst`, `setRunning` below are still separate steps of this transition
+  system, i.e. it is FINER than the code: every behaviour of the code is a behaviour of the model (run the steps of
+  one critical section without interleaving), so every theorem over all reachable states / all continuations
+  holds for the code; the interleavings inside those sections that the model additionally has (last example of
+  Props/C14.lean) can no longer happen in the code.
+
   Transition table (the code as it is NOW; replaces DESIGN.md Appendix C, which describes the code before the
   repairs).  Shared: running, lst (the field), lsnrs (open?, armed?, address), counter, addrF.  Call k: pc, l, cur,
   wg, ret.  All accesses of shared fields are under the mutex except refreshTimeout's read of `s.listener` (★).
